@@ -289,12 +289,10 @@ def run_unit(unit):
                 argv = ["type", "--in", cont, path]
                 if cont == "binary" and not known_crash:
                     # the default (--in auto) must list the same types whenever auto-detection takes the file for binary
-                    from tpmstream.io.auto.marshal import detect_format_and_yield_buffer
+                    # what auto-detection does with this file, by its documented rule: pcapng magic, two hex digits, else binary
+                    import re as _re
 
-                    try:
-                        detected = next(detect_format_and_yield_buffer(buf, strict=False))
-                    except Exception:  # noqa: BLE001
-                        detected = None
+                    detected = "pcapng" if buf[:2] == b"\x0a\x0d" else "hex" if _re.match(rb"[0-9a-fA-F]{2}", buf[:2]) else "binary" if len(buf) >= 2 else None
                     if detected == "binary":
                         for av in (["type", path], ["type", "--in", "auto", path]):
                             acc.count("evaluations")
